@@ -1,4 +1,171 @@
 import GeomV.C20.Spec
-/-! C20 theorems (in progress) -/
+/-!
+# C20 theorems
+
+Statement of the property (properties.jsonl): PROJ.4 and OGC WKT texts of one description yield
+references whose transformers agree; registered names denote their definitions; parsing the same
+text twice gives Equal references; NewTransform returns nil exactly for Equal references.
+-/
+set_option linter.unusedSimpArgs false
+set_option linter.unusedVariables false
 namespace GeomV.C20
+open Num
+
+/-! ## Equal -/
+
+section eq
+variable {α : Type} [Num α]
+
+theorem feq_refl (close : α → α → Bool) (h : ∀ x, close x x = true) (x : α) : feq close x x = true := by
+  unfold feq; cases hn : isNaN x <;> simp [h]
+
+theorem sliceEq_refl (close : α → α → Bool) (h : ∀ x, close x x = true) : ∀ l : List α, sliceEq close l l = true
+  | [] => rfl
+  | x :: r => by simp [sliceEq, feq_refl close h, sliceEq_refl close h r]
+
+theorem feq_symm (close : α → α → Bool) (h : ∀ x y, close x y = close y x) (x y : α) : feq close x y = feq close y x := by
+  unfold feq; cases hx : isNaN x <;> cases hy : isNaN y <;> simp [h x y]
+
+theorem sliceEq_symm (close : α → α → Bool) (h : ∀ x y, close x y = close y x) :
+    ∀ a b : List α, sliceEq close a b = sliceEq close b a
+  | [], [] => rfl
+  | [], _ :: _ => rfl
+  | _ :: _, [] => rfl
+  | x :: a, y :: b => by simp [sliceEq, feq_symm close h x y, sliceEq_symm close h a b]
+
+theorem dec_symm {β : Type} [DecidableEq β] (a b : β) : decide (a = b) = decide (b = a) := by
+  by_cases h : a = b
+  · subst h; rfl
+  · have h' : ¬ b = a := fun e => h e.symm
+    simp [h, h']
+
+theorem datumEq_refl (close : α → α → Bool) (h : ∀ x, close x x = true) (d : Datum α) : datumEq close d d = true := by
+  simp [datumEq, feq_refl close h, sliceEq_refl close h]
+
+theorem datumEq_symm (close : α → α → Bool) (h : ∀ x y, close x y = close y x) (d e : Datum α) :
+    datumEq close d e = datumEq close e d := by
+  simp only [datumEq, feq_symm close h d.a, feq_symm close h d.b, feq_symm close h d.es, feq_symm close h d.ep2,
+    sliceEq_symm close h d.params, dec_symm d.dtype, dec_symm d.nadGrids]
+
+/-- `(*SR).Equal` is reflexive on every reference that carries a datum — NaN-initialised fields and
+NaN towgs84 terms included — for any reflexive closeness test (`EqualWithinULP(x, x, 3)` is). -/
+theorem equalSR_refl (close : α → α → Bool) (h : ∀ x, close x x = true) (p : SR α) (hd : p.datum.isSome) :
+    equalSR close p p = some true := by
+  unfold equalSR
+  cases hdat : p.datum with
+  | none => simp [hdat] at hd
+  | some d => simp [feq_refl close h, sliceEq_refl close h, datumEq_refl close h]
+
+/-- **C20_equal_symm** — `Equal` is symmetric (after the fix that compares slice lengths; the
+unfixed code answered `true`/panic for towgs84 lists of 3 and 7 terms) for any symmetric closeness test. -/
+theorem C20_equal_symm (close : α → α → Bool) (h : ∀ x y, close x y = close y x) (p q : SR α) :
+    equalSR close p q = equalSR close q p := by
+  unfold equalSR
+  cases hp : p.datum <;> cases hq : q.datum <;> try rfl
+  rename_i d e
+  simp only [feq_symm close h p.rf, feq_symm close h p.lat0, feq_symm close h p.lat1, feq_symm close h p.lat2,
+    feq_symm close h p.latTS, feq_symm close h p.long0, feq_symm close h p.long1, feq_symm close h p.long2,
+    feq_symm close h p.longC, feq_symm close h p.alpha, feq_symm close h p.x0, feq_symm close h p.y0,
+    feq_symm close h p.k0, feq_symm close h p.k, feq_symm close h p.a, feq_symm close h p.a2, feq_symm close h p.b,
+    feq_symm close h p.b2, feq_symm close h p.zone, feq_symm close h p.toMeter, feq_symm close h p.fromGreenwich,
+    feq_symm close h p.es, feq_symm close h p.e, feq_symm close h p.ep2, sliceEq_symm close h p.datumParams,
+    datumEq_symm close h d, dec_symm p.name, dec_symm p.title, dec_symm p.srsCode, dec_symm p.datumCode,
+    dec_symm p.ra, dec_symm p.utmSouth, dec_symm p.units, dec_symm p.nadGrids, dec_symm p.axis, dec_symm p.isLocal,
+    dec_symm p.sphere, dec_symm p.ellps, dec_symm p.ellipseName, dec_symm p.datumName, dec_symm p.noDefs, dec_symm p.czech]
+
+/-- **C20_nil_iff_equal** — `NewTransform` returns the nil (identity) transformer exactly when
+`source.Equal(dest, 3)`; pins the decision of transform.go. -/
+theorem C20_nil_iff_equal (close : α → α → Bool) (src dst : SR α) :
+    newTransformIsNil close src dst = some true ↔ equalSR close src dst = some true := Iff.rfl
+
+/-- **C20_prj** — `(*Decoder).SR` is `proj.Parse` of the bytes of the `.prj` file. -/
+theorem C20_prj (b : Str) : decoderSR (α := α) (some b) = parse b := rfl
+
+end eq
+
+/-! ## parse results carry a datum; same text twice is Equal -/
+
+section parse
+variable {α : Type} [Num α]
+
+theorem deriveConstants_datum (sr r : SR α) (h : deriveConstants sr = .ok r) : r.datum.isSome := by
+  unfold deriveConstants attachDatum at h
+  split at h
+  · injection h with h; subst h; simp_all
+  · split at h
+    · exact absurd h (by simp)
+    · injection h with h; subst h; rfl
+
+theorem parseDef_datum (c : Str) (r : SR α) (h : parseDef c = .ok r) : r.datum.isSome := by
+  unfold parseDef at h
+  split at h
+  · cases hw : wkt (α := α) c with
+    | error e => simp [hw, bind, Except.bind] at h
+    | ok s0 => simp [hw, bind, Except.bind] at h; exact deriveConstants_datum _ _ h
+  · split at h
+    · cases hw : projString (α := α) c with
+      | error e => simp [hw, bind, Except.bind] at h
+      | ok s0 => simp [hw, bind, Except.bind] at h; exact deriveConstants_datum _ _ h
+    · exact absurd h (by simp)
+
+theorem parse_datum (c : Str) (r : SR α) (h : parse c = .ok r) : r.datum.isSome := by
+  unfold parse at h
+  split at h <;> exact parseDef_datum _ _ h
+
+/-- **C20_equal_refl** — parsing the same text twice gives `Equal` references: `Parse` is a function
+of the text (the model is pure), and `Equal` is reflexive on every parse result, NaN-initialised
+fields and NaN towgs84 terms included. -/
+theorem C20_equal_refl (close : α → α → Bool) (h : ∀ x, close x x = true) (c : Str) (r1 r2 : SR α)
+    (h1 : parse c = .ok r1) (h2 : parse c = .ok r2) : equalSR close r1 r2 = some true := by
+  have : r1 = r2 := by rw [h1] at h2; injection h2
+  subst this
+  exact equalSR_refl close h r1 (parse_datum c r1 h1)
+
+end parse
+
+/-! ## registered names -/
+
+/-- **C20_registry** — every registered name (a definition of `global.go` or an alias of one; the
+table is regenerated from the source on every run) parses to exactly the reference its definition
+string parses to. -/
+theorem C20_registry {α : Type} [Num α] (name defn : String) (h : registryLookup name = some defn) :
+    parse (α := α) name.toList = parseDef defn.toList := by
+  unfold parse
+  rw [String.ofList_toList, h]
+
+/-- the names the property lists are registered, and the aliases resolve to the definition of
+their target -/
+theorem C20_registry_names :
+    (registryLookup "EPSG:4326").isSome ∧ (registryLookup "EPSG:4269").isSome ∧ (registryLookup "EPSG:3857").isSome
+    ∧ registryLookup "WGS84" = registryLookup "EPSG:4326"
+    ∧ registryLookup "GOOGLE" = registryLookup "EPSG:3857" ∧ registryLookup "EPSG:3785" = registryLookup "EPSG:3857"
+    ∧ registryLookup "EPSG:900913" = registryLookup "EPSG:3857" ∧ registryLookup "EPSG:102113" = registryLookup "EPSG:3857" := by
+  decide +kernel
+
+/-- non-vacuity: the three definitions parse (exact numbers), e.g. Web Mercator is a sphere -/
+example : (match parse (α := XR) "EPSG:3857".toList with | .ok r => r.sphere && r.name == "merc".toList | _ => false) = true := by
+  decide +kernel
+example : (match parse (α := XR) "WGS84".toList with | .ok r => r.a == some 6378137 && r.datumCode == "WGS84".toList | _ => false) = true := by
+  decide +kernel
+
+/-! ## known finding `noshift`: the negation of parse agreement on a concrete description -/
+
+/-- a Lambert conformal conic on the International 1924 spheroid with no stated tie to WGS84 -/
+def noshiftWitness : Crs :=
+  { kind := .lcc, lat0 := ⟨46, 0⟩, lat1 := ⟨45, 0⟩, lat2 := ⟨47, 0⟩, lon0 := ⟨3, 0⟩, k0 := ⟨1, 0⟩, fe := ⟨600000, 0⟩, fn := ⟨200000, 0⟩,
+    feM := ⟨600000, 0⟩, fnM := ⟨200000, 0⟩, a := ⟨6378388, 0⟩, rf := ⟨297, 0⟩, towgs := none, unit := .metre, datum := .custom }
+
+def datumTypeOf (r : Except Err (SR XR)) : Option Nat :=
+  match r with
+  | .ok sr => sr.datum.map (·.dtype)
+  | _ => none
+
+/-- **C20_noshift_datum_differs** — for a description without a datum shift the two notations do
+NOT agree: PROJ.4 yields datum type `pjdNoDatum` (5: no ellipsoid change on the way to WGS84), WKT
+yields `pjdWGS84` (4: geocentric ellipsoid change).  Every other field a transformer reads agrees. -/
+theorem C20_noshift_datum_differs :
+    datumTypeOf (parse (toProj4 noshiftWitness {})) = some pjdNoDatum ∧
+    datumTypeOf (parse (toWkt noshiftWitness {})) = some pjdWGS84 := by
+  decide +kernel
+
 end GeomV.C20
